@@ -1171,6 +1171,17 @@ func c20After(cases []LCase, outDir string) map[int]string {
 
 // runInChildren: the child runner `prop` prints "start i" / "done i <text>" per case and exits(3) after a timeout
 func runInChildren(prop string, cases []LCase, outDir string) map[int]string {
+	return runChildrenRaw(prop, len(cases), outDir, func(idx []int) []byte {
+		var mine []LCase
+		for _, i := range idx {
+			mine = append(mine, cases[i])
+		}
+		b, _ := json.Marshal(map[string]any{"cases": mine})
+		return b
+	})
+}
+
+func runChildrenRaw(prop string, ncases int, outDir string, marshal func(idx []int) []byte) map[int]string {
 	res := map[int]string{}
 	var mu sync.Mutex
 	var wg sync.WaitGroup
@@ -1180,15 +1191,13 @@ func runInChildren(prop string, cases []LCase, outDir string) map[int]string {
 		wg.Add(1)
 		go func(w int) {
 			defer wg.Done()
-			var mine []LCase
 			var orig []int
-			for i := w; i < len(cases); i += workers {
-				mine = append(mine, cases[i])
+			for i := w; i < ncases; i += workers {
 				orig = append(orig, i)
 			}
+			mine := orig
 			fn := filepath.Join(outDir, fmt.Sprintf("child_%s_%d.json", prop, w))
-			b, _ := json.Marshal(map[string]any{"cases": mine})
-			must(os.WriteFile(fn, b, 0o644))
+			must(os.WriteFile(fn, marshal(orig), 0o644))
 			defer os.Remove(fn)
 			for start := 0; start < len(mine); {
 				cmd := exec.Command(self, "-prop", prop, "-seed", fmt.Sprint(start), "-out", outDir, "-replay", fn)
